@@ -126,11 +126,11 @@ def ann_type(node):
 
 
 class Sig:
-    def __init__(self, fn, consts=None, lean_prefix=''):
+    def __init__(self, fn, consts=None):
         self.fn = fn
         self.name = fn.name
         self.consts = consts or {}
-        self.lean_name = lean_prefix + ident(fn.name)     # how translated code refers to it
+        self.lean_name = ident(fn.name)                   # how translated code refers to it
         self.done = False                                 # translated successfully
         self.error = None
         self.params = []          # (name, type, default literal | None)
@@ -168,13 +168,6 @@ class Sig:
         self.ret = ann_type(fn.returns)
         if self.ret is None:
             raise Untranslatable('return annotation that is not int / a byte-string type / a tuple of these', fn)
-
-
-def _param_alias(node, names):
-    """`p` or `memoryview(p)` for a parameter name p -> p"""
-    if isinstance(node, ast.Name) and node.id in names:
-        return node.id
-    return None
 
 
 def _is_struct_call(node, attr):
@@ -482,10 +475,12 @@ class FnTranslator:
                     raise Untranslatable('*argument', node)
                 args[i] = a
             gn = [p[0] for p in g.params]
+            by_keyword = set()
             for k in node.keywords:
                 if k.arg not in gn or args[gn.index(k.arg)] is not None:
                     raise Untranslatable('keyword argument', node)
                 args[gn.index(k.arg)] = k.value
+                by_keyword.add(gn.index(k.arg))
             terms, outs = [], []
             for i, (a, (pn, pt, dv)) in enumerate(zip(args, g.params)):
                 if a is None:
@@ -498,7 +493,9 @@ class FnTranslator:
                         raise Untranslatable(f'buffer argument of {f.id}() (which writes to it) that is not a buffer '
                                              'parameter / a local bytearray(n) given by name', node)
                     outs.append(a.id)
-                x, t = self.expr(a, env, pre)
+                # (keyword arguments are evaluated in call-site order by Python, in parameter order here: they must
+                # be free of operations that can raise, so that the order cannot be observed)
+                x, t = self.pure_expr(a, env, 'keyword argument') if i in by_keyword else self.expr(a, env, pre)
                 if t != pt:
                     raise Untranslatable(f'argument {pn!r} of {f.id}() has type {t}, expected {pt}', node)
                 terms.append(x)
